@@ -74,6 +74,10 @@ async fn run_case(
             match &mut case {
                 Case::Ev(world) => {
                     let r = world.op(&kind, &kv, &mut stats).await;
+                    for (sig, detail) in world.oracle.drain(..) {
+                        stats.inc(&format!("oracle.{}", sig));
+                        oracle_lines.push(format!("{} {} {}", case_index, sig, detail));
+                    }
                     if r.contains(" ev ") && r.contains("D[") && !r.contains("D[]") || r.contains("Dx") {
                         stats.inc("ops_with_announced_cells");
                     }
